@@ -125,6 +125,104 @@ pub trait Spec: Sized + Send + Sync + 'static {
     fn show(v: &Self::V) -> String {
         show(v)
     }
+
+    // ---- reference storage model (C11, C12, C18): predicts indices of pair/dense-indexed regions
+    // and the exact used bytes of every storage heap_size reports, in callback order.
+    type M: Default + Clone + Send + Sync + 'static;
+    const MODELLED: bool = true;
+    fn m_push(m: &mut Self::M, v: &Self::V) -> MIdx;
+    fn m_clear(m: &mut Self::M);
+    fn m_merged(srcs: &[&Self::M]) -> Self::M;
+    fn m_layout(m: &Self::M, out: &mut Vec<Slot>);
+}
+
+#[derive(Clone, Copy, Debug, PartialEq, Eq)]
+pub enum Kind {
+    Payload,
+    Index,
+    Structure,
+}
+#[derive(Clone, Debug, PartialEq, Eq)]
+pub struct Slot {
+    pub kind: Kind,
+    pub used: usize,
+}
+/// Model of a region index.
+#[derive(Clone, Copy, Debug, PartialEq, Eq)]
+pub enum MIdx {
+    Pair(usize, usize),
+    Dense(usize),
+    Opaque,
+}
+impl MIdx {
+    pub fn render(&self) -> Option<String> {
+        match self {
+            MIdx::Pair(a, b) => Some(format!("[{a},{b}]")),
+            MIdx::Dense(k) => Some(k.to_string()),
+            MIdx::Opaque => None,
+        }
+    }
+}
+
+/// Expected heap_size callbacks of an index container holding region indices.
+pub trait IdxModel<T> {
+    fn slots(vals: &[MIdx], out: &mut Vec<Slot>);
+}
+impl<T> IdxModel<T> for Vec<T> {
+    fn slots(vals: &[MIdx], out: &mut Vec<Slot>) {
+        out.push(Slot { kind: Kind::Index, used: vals.len() * std::mem::size_of::<T>() });
+    }
+}
+fn dense_values(vals: &[MIdx]) -> Vec<usize> {
+    vals.iter()
+        .map(|v| match v {
+            MIdx::Dense(k) => *k,
+            other => panic!("model: usize index container holds {:?}", other),
+        })
+        .collect()
+}
+fn list_slots(seq: &[usize], out: &mut Vec<Slot>) {
+    let first_big = seq.iter().position(|&x| x > u32::MAX as usize).unwrap_or(seq.len());
+    out.push(Slot { kind: Kind::Index, used: 4 * first_big });
+    out.push(Slot { kind: Kind::Index, used: 8 * (seq.len() - first_big) });
+}
+impl IdxModel<usize> for flatcontainer::impls::index::IndexList<Vec<u32>, Vec<u64>> {
+    fn slots(vals: &[MIdx], out: &mut Vec<Slot>) {
+        list_slots(&dense_values(vals), out)
+    }
+}
+impl IdxModel<usize> for flatcontainer::impls::index::IndexOptimized {
+    fn slots(vals: &[MIdx], out: &mut Vec<Slot>) {
+        let seq = dense_values(vals);
+        let p = crate::m_index::stride_prefix_len(&seq);
+        list_slots(&seq[p..], out)
+    }
+}
+fn offsets_slots<O: IdxModel<usize>>(offs: &[usize], out: &mut Vec<Slot>) {
+    let v: Vec<MIdx> = offs.iter().map(|o| MIdx::Dense(*o)).collect();
+    O::slots(&v, out)
+}
+
+#[derive(Clone)]
+pub struct ConsecM<IM> {
+    pub inner: IM,
+    pub offs: Vec<usize>,
+}
+impl<IM: Default> Default for ConsecM<IM> {
+    fn default() -> Self {
+        ConsecM { inner: IM::default(), offs: vec![0] }
+    }
+}
+#[derive(Clone)]
+pub struct ColsM<IM> {
+    pub cols: Vec<IM>,
+    pub row_offs: Vec<usize>,
+    pub cells: usize,
+}
+impl<IM> Default for ColsM<IM> {
+    fn default() -> Self {
+        ColsM { cols: vec![], row_offs: vec![0], cells: 0 }
+    }
 }
 
 macro_rules! ensure {
@@ -142,6 +240,13 @@ where
 {
     type V = T;
     type R = MirrorRegion<T>;
+    type M = ();
+    fn m_push(_m: &mut (), _v: &T) -> MIdx {
+        MIdx::Opaque
+    }
+    fn m_clear(_m: &mut ()) {}
+    fn m_merged(_s: &[&()]) {}
+    fn m_layout(_m: &(), _out: &mut Vec<Slot>) {}
     fn name() -> String {
         format!("MirrorRegion<{}>", short_type::<T>())
     }
@@ -198,6 +303,21 @@ pub struct Owned<T>(PhantomData<T>);
 impl<T: Val> Spec for Owned<T> {
     type V = Vec<T>;
     type R = OwnedRegion<T>;
+    type M = usize;
+    fn m_push(m: &mut usize, v: &Vec<T>) -> MIdx {
+        let s = *m;
+        *m += v.len();
+        MIdx::Pair(s, *m)
+    }
+    fn m_clear(m: &mut usize) {
+        *m = 0;
+    }
+    fn m_merged(_s: &[&usize]) -> usize {
+        0
+    }
+    fn m_layout(m: &usize, out: &mut Vec<Slot>) {
+        out.push(Slot { kind: Kind::Payload, used: *m * std::mem::size_of::<T>() });
+    }
     fn name() -> String {
         format!("OwnedRegion<{}>", short_type::<T>())
     }
@@ -217,6 +337,20 @@ pub struct VecRegion<T>(PhantomData<T>);
 impl<T: Val> Spec for VecRegion<T> {
     type V = T;
     type R = Vec<T>;
+    type M = usize;
+    fn m_push(m: &mut usize, _v: &T) -> MIdx {
+        *m += 1;
+        MIdx::Dense(*m - 1)
+    }
+    fn m_clear(m: &mut usize) {
+        *m = 0;
+    }
+    fn m_merged(_s: &[&usize]) -> usize {
+        0
+    }
+    fn m_layout(m: &usize, out: &mut Vec<Slot>) {
+        out.push(Slot { kind: Kind::Payload, used: *m * std::mem::size_of::<T>() });
+    }
     fn name() -> String {
         format!("Vec<{}> as region", short_type::<T>())
     }
@@ -252,6 +386,20 @@ where
 {
     type V = String;
     type R = StringRegion<B::R>;
+    type M = B::M;
+    const MODELLED: bool = B::MODELLED;
+    fn m_push(m: &mut B::M, v: &String) -> MIdx {
+        B::m_push(m, &v.clone().into_bytes())
+    }
+    fn m_clear(m: &mut B::M) {
+        B::m_clear(m)
+    }
+    fn m_merged(s: &[&B::M]) -> B::M {
+        B::m_merged(s)
+    }
+    fn m_layout(m: &B::M, out: &mut Vec<Slot>) {
+        B::m_layout(m, out)
+    }
     fn name() -> String {
         if B::name() == "OwnedRegion<u8>" {
             "StringRegion".into()
@@ -274,10 +422,31 @@ impl<I, O> Spec for Consec<I, O>
 where
     I: Spec,
     I::R: Region<Index = (usize, usize)> + Push<I::V>,
-    O: flatcontainer::impls::index::IndexContainer<usize> + Send + Sync + 'static,
+    O: flatcontainer::impls::index::IndexContainer<usize> + IdxModel<usize> + Send + Sync + 'static,
 {
     type V = I::V;
     type R = ConsecutiveIndexPairs<I::R, O>;
+    type M = ConsecM<I::M>;
+    const MODELLED: bool = I::MODELLED;
+    fn m_push(m: &mut Self::M, v: &I::V) -> MIdx {
+        match I::m_push(&mut m.inner, v) {
+            MIdx::Pair(_, e) => m.offs.push(e),
+            other => panic!("model: ConsecutiveIndexPairs over a region with index {:?}", other),
+        }
+        MIdx::Dense(m.offs.len() - 2)
+    }
+    fn m_clear(m: &mut Self::M) {
+        I::m_clear(&mut m.inner);
+        m.offs = vec![0];
+    }
+    fn m_merged(s: &[&Self::M]) -> Self::M {
+        let inner: Vec<&I::M> = s.iter().map(|x| &x.inner).collect();
+        ConsecM { inner: I::m_merged(&inner), offs: vec![0] }
+    }
+    fn m_layout(m: &Self::M, out: &mut Vec<Slot>) {
+        offsets_slots::<O>(&m.offs, out);
+        I::m_layout(&m.inner, out);
+    }
     fn name() -> String {
         format!("ConsecutiveIndexPairs<{}, {}>", I::name(), short_type::<O>())
     }
@@ -301,10 +470,34 @@ impl<I> Spec for Collapse<I>
 where
     I: Spec,
     I::R: Push<I::V>,
+    I::V: PartialEq,
     for<'a> I::V: PartialEq<<I::R as Region>::ReadItem<'a>>,
 {
     type V = I::V;
     type R = CollapseSequence<I::R>;
+    type M = (I::M, Option<(I::V, MIdx)>);
+    const MODELLED: bool = I::MODELLED;
+    fn m_push(m: &mut Self::M, v: &I::V) -> MIdx {
+        if let Some((last, idx)) = &m.1 {
+            if last == v {
+                return *idx;
+            }
+        }
+        let idx = I::m_push(&mut m.0, v);
+        m.1 = Some((v.clone(), idx));
+        idx
+    }
+    fn m_clear(m: &mut Self::M) {
+        I::m_clear(&mut m.0);
+        m.1 = None;
+    }
+    fn m_merged(s: &[&Self::M]) -> Self::M {
+        let inner: Vec<&I::M> = s.iter().map(|x| &x.0).collect();
+        (I::m_merged(&inner), None)
+    }
+    fn m_layout(m: &Self::M, out: &mut Vec<Slot>) {
+        I::m_layout(&m.0, out);
+    }
     fn name() -> String {
         format!("CollapseSequence<{}>", I::name())
     }
@@ -330,6 +523,23 @@ where
 {
     type V = Option<I::V>;
     type R = OptionRegion<I::R>;
+    type M = I::M;
+    const MODELLED: bool = I::MODELLED;
+    fn m_push(m: &mut I::M, v: &Self::V) -> MIdx {
+        if let Some(x) = v {
+            I::m_push(m, x);
+        }
+        MIdx::Opaque
+    }
+    fn m_clear(m: &mut I::M) {
+        I::m_clear(m)
+    }
+    fn m_merged(s: &[&I::M]) -> I::M {
+        I::m_merged(s)
+    }
+    fn m_layout(m: &I::M, out: &mut Vec<Slot>) {
+        I::m_layout(m, out)
+    }
     fn name() -> String {
         format!("OptionRegion<{}>", I::name())
     }
@@ -356,6 +566,28 @@ where
 {
     type V = Result<A::V, B::V>;
     type R = ResultRegion<A::R, B::R>;
+    type M = (A::M, B::M);
+    const MODELLED: bool = A::MODELLED && B::MODELLED;
+    fn m_push(m: &mut Self::M, v: &Self::V) -> MIdx {
+        match v {
+            Ok(x) => A::m_push(&mut m.0, x),
+            Err(x) => B::m_push(&mut m.1, x),
+        };
+        MIdx::Opaque
+    }
+    fn m_clear(m: &mut Self::M) {
+        A::m_clear(&mut m.0);
+        B::m_clear(&mut m.1);
+    }
+    fn m_merged(s: &[&Self::M]) -> Self::M {
+        let a: Vec<&A::M> = s.iter().map(|x| &x.0).collect();
+        let b: Vec<&B::M> = s.iter().map(|x| &x.1).collect();
+        (A::m_merged(&a), B::m_merged(&b))
+    }
+    fn m_layout(m: &Self::M, out: &mut Vec<Slot>) {
+        A::m_layout(&m.0, out);
+        B::m_layout(&m.1, out);
+    }
     fn name() -> String {
         format!("ResultRegion<{}, {}>", A::name(), B::name())
     }
@@ -382,6 +614,26 @@ where
 {
     type V = (A::V, B::V);
     type R = TupleABRegion<A::R, B::R>;
+    type M = (A::M, B::M);
+    const MODELLED: bool = A::MODELLED && B::MODELLED;
+    fn m_push(m: &mut Self::M, v: &Self::V) -> MIdx {
+        A::m_push(&mut m.0, &v.0);
+        B::m_push(&mut m.1, &v.1);
+        MIdx::Opaque
+    }
+    fn m_clear(m: &mut Self::M) {
+        A::m_clear(&mut m.0);
+        B::m_clear(&mut m.1);
+    }
+    fn m_merged(s: &[&Self::M]) -> Self::M {
+        let a: Vec<&A::M> = s.iter().map(|x| &x.0).collect();
+        let b: Vec<&B::M> = s.iter().map(|x| &x.1).collect();
+        (A::m_merged(&a), B::m_merged(&b))
+    }
+    fn m_layout(m: &Self::M, out: &mut Vec<Slot>) {
+        A::m_layout(&m.0, out);
+        B::m_layout(&m.1, out);
+    }
     fn name() -> String {
         format!("TupleABRegion<{}, {}>", A::name(), B::name())
     }
@@ -406,6 +658,30 @@ where
 {
     type V = (A::V, B::V, C::V);
     type R = TupleABCRegion<A::R, B::R, C::R>;
+    type M = (A::M, B::M, C::M);
+    const MODELLED: bool = A::MODELLED && B::MODELLED && C::MODELLED;
+    fn m_push(m: &mut Self::M, v: &Self::V) -> MIdx {
+        A::m_push(&mut m.0, &v.0);
+        B::m_push(&mut m.1, &v.1);
+        C::m_push(&mut m.2, &v.2);
+        MIdx::Opaque
+    }
+    fn m_clear(m: &mut Self::M) {
+        A::m_clear(&mut m.0);
+        B::m_clear(&mut m.1);
+        C::m_clear(&mut m.2);
+    }
+    fn m_merged(s: &[&Self::M]) -> Self::M {
+        let a: Vec<&A::M> = s.iter().map(|x| &x.0).collect();
+        let b: Vec<&B::M> = s.iter().map(|x| &x.1).collect();
+        let c: Vec<&C::M> = s.iter().map(|x| &x.2).collect();
+        (A::m_merged(&a), B::m_merged(&b), C::m_merged(&c))
+    }
+    fn m_layout(m: &Self::M, out: &mut Vec<Slot>) {
+        A::m_layout(&m.0, out);
+        B::m_layout(&m.1, out);
+        C::m_layout(&m.2, out);
+    }
     fn name() -> String {
         format!("TupleABCRegion<{}, {}, {}>", A::name(), B::name(), C::name())
     }
@@ -424,10 +700,32 @@ impl<I, O> Spec for Slice<I, O>
 where
     I: Spec,
     I::R: Push<I::V>,
-    O: flatcontainer::impls::index::IndexContainer<<I::R as Region>::Index> + Send + Sync + 'static,
+    O: flatcontainer::impls::index::IndexContainer<<I::R as Region>::Index> + IdxModel<<I::R as Region>::Index> + Send + Sync + 'static,
 {
     type V = Vec<I::V>;
     type R = SliceRegion<I::R, O>;
+    type M = (Vec<MIdx>, I::M);
+    const MODELLED: bool = I::MODELLED;
+    fn m_push(m: &mut Self::M, v: &Self::V) -> MIdx {
+        let start = m.0.len();
+        for x in v {
+            let i = I::m_push(&mut m.1, x);
+            m.0.push(i);
+        }
+        MIdx::Pair(start, m.0.len())
+    }
+    fn m_clear(m: &mut Self::M) {
+        m.0.clear();
+        I::m_clear(&mut m.1);
+    }
+    fn m_merged(s: &[&Self::M]) -> Self::M {
+        let inner: Vec<&I::M> = s.iter().map(|x| &x.1).collect();
+        (vec![], I::m_merged(&inner))
+    }
+    fn m_layout(m: &Self::M, out: &mut Vec<Slot>) {
+        O::slots(&m.0, out);
+        I::m_layout(&m.1, out);
+    }
     fn name() -> String {
         let o = short_type::<O>();
         if o.starts_with("Vec<") {
@@ -505,10 +803,48 @@ impl<I, O> Spec for Cols<I, O>
 where
     I: Spec,
     I::R: Push<I::V>,
-    O: flatcontainer::impls::index::IndexContainer<usize> + Send + Sync + 'static,
+    O: flatcontainer::impls::index::IndexContainer<usize> + IdxModel<usize> + Send + Sync + 'static,
 {
     type V = Vec<I::V>;
     type R = ColumnsRegion<I::R, O>;
+    type M = ColsM<I::M>;
+    const MODELLED: bool = I::MODELLED;
+    fn m_push(m: &mut Self::M, v: &Self::V) -> MIdx {
+        while m.cols.len() < v.len() {
+            m.cols.push(Default::default());
+        }
+        for (c, x) in m.cols.iter_mut().zip(v) {
+            I::m_push(c, x);
+        }
+        m.cells += v.len();
+        m.row_offs.push(m.cells);
+        MIdx::Dense(m.row_offs.len() - 2)
+    }
+    fn m_clear(m: &mut Self::M) {
+        for c in &mut m.cols {
+            I::m_clear(c);
+        }
+        m.row_offs = vec![0];
+        m.cells = 0;
+    }
+    fn m_merged(s: &[&Self::M]) -> Self::M {
+        let n = s.iter().map(|x| x.cols.len()).max().unwrap_or(0);
+        let cols = (0..n)
+            .map(|i| {
+                let col: Vec<&I::M> = s.iter().filter_map(|x| x.cols.get(i)).collect();
+                I::m_merged(&col)
+            })
+            .collect();
+        ColsM { cols, row_offs: vec![0], cells: 0 }
+    }
+    fn m_layout(m: &Self::M, out: &mut Vec<Slot>) {
+        out.push(Slot { kind: Kind::Structure, used: m.cols.len() * std::mem::size_of::<I::R>() });
+        for c in &m.cols {
+            I::m_layout(c, out);
+        }
+        offsets_slots::<O>(&m.row_offs, out);
+        out.push(Slot { kind: Kind::Index, used: m.cells * std::mem::size_of::<<I::R as Region>::Index>() });
+    }
     fn name() -> String {
         format!("ColumnsRegion<{}, {}>", I::name(), short_type::<O>())
     }
@@ -610,6 +946,10 @@ pub struct Entry<S: Spec> {
     pub de: Option<fn(&str) -> Result<S::R, String>>,
     /// complete rendering of the implementation state; None: no state matching
     pub render: Option<fn(&S::R) -> String>,
+    /// (==, partial_cmp, cmp) of two read items (C15)
+    pub cmp: Option<for<'a, 'b> fn(&'b RI<'a, S>, &'b RI<'a, S>) -> (bool, Option<std::cmp::Ordering>, std::cmp::Ordering)>,
+    /// ordering of the owned model values
+    pub vcmp: Option<fn(&S::V, &S::V) -> std::cmp::Ordering>,
     pub has_heap: bool,
     pub has_reserve_regions: bool,
     /// indices are 0,1,2,... (C12)
@@ -639,6 +979,8 @@ impl<S: Spec> Clone for Entry<S> {
             ser: self.ser,
             de: self.de,
             render: self.render,
+            cmp: self.cmp,
+            vcmp: self.vcmp,
             has_heap: self.has_heap,
             has_reserve_regions: self.has_reserve_regions,
             dense: self.dense,
@@ -664,6 +1006,8 @@ impl<S: Spec> Entry<S> {
             ser: None,
             de: None,
             render: None,
+            cmp: None,
+            vcmp: None,
             has_heap: true,
             has_reserve_regions: true,
             dense: false,
@@ -708,6 +1052,15 @@ impl<S: Spec> Entry<S> {
         S::R: Debug,
     {
         self.render = Some(|r| format!("{:?}", r));
+        self
+    }
+    pub fn ordered(mut self) -> Self
+    where
+        for<'a> RI<'a, S>: Ord,
+        S::V: Ord,
+    {
+        self.cmp = Some(|x, y| (x == y, x.partial_cmp(y), x.cmp(y)));
+        self.vcmp = Some(|x, y| x.cmp(y));
         self
     }
     pub fn render_with(mut self, f: fn(&S::R) -> String) -> Self {
